@@ -557,6 +557,45 @@ def concrete_theorems(interp, contract, real_result, args, kwargs, pb):
     return [Mismatch(n, "violated on the real result", "holds") for n in ctx.failed]
 
 
+def snapshot_inputs(rargs, rkwargs, pb, skip_out=False):
+    """Byte-wise snapshot of every input signal / array / Quantity (C14, bounded layer)."""
+    import numpy as np
+    import pickle
+    out = {}
+
+    def snap(v, path):
+        if isinstance(v, pb.Signal):
+            d = v.data
+            if isinstance(d, np.ndarray):
+                out[path + ".data"] = (d.tobytes(), str(d.dtype), d.shape, d.strides)
+            for a in ("sample_rate", "start_time", "center_freq", "chan_bw", "freq_align", "pol_type"):
+                if hasattr(v, a):
+                    x = getattr(v, a)
+                    out[f"{path}.{a}"] = None if x is None else ((x.jd1, x.jd2) if hasattr(x, "jd1") else str(x))
+            try:
+                out[path + ".meta"] = pickle.dumps(v.meta)
+            except Exception:
+                out[path + ".meta"] = repr(v.meta)
+        elif isinstance(v, np.ndarray) and not hasattr(v, "unit"):
+            out[path] = (v.tobytes(), str(v.dtype), v.shape, v.strides)
+        elif hasattr(v, "unit") and hasattr(v, "value"):
+            x = np.asarray(v.value)
+            out[path] = (x.tobytes(), str(x.dtype), x.shape, str(v.unit))
+        elif isinstance(v, (list, tuple)):
+            for i, x in enumerate(v):
+                snap(x, f"{path}[{i}]")
+        elif isinstance(v, dict):
+            for k, x in v.items():
+                snap(x, f"{path}[{k}]")
+    for i, a in enumerate(rargs):
+        snap(a, f"arg{i}")
+    for k, a in rkwargs.items():
+        if skip_out and k == "out":
+            continue
+        snap(a, k)
+    return out
+
+
 # --------------------------------------------------------------------------- differential run
 
 def import_repo(root="/repo"):
@@ -623,6 +662,7 @@ def _differential(interp, contract, inst, nm, pb, tol, real_call, ctx):
         rkwargs = to_real(dict(kwargs), pb)
     except Unsupported as e:
         return {"status": "skip", "why": f"inputs not realisable: {e}"}
+    snap_before = snapshot_inputs(rargs, rkwargs, pb, skip_out=getattr(contract, "sanctioned_out", False))
     try:
         if real_call is not None:
             res = real_call(pb, rargs, rkwargs)
@@ -641,6 +681,10 @@ def _differential(interp, contract, inst, nm, pb, tol, real_call, ctx):
         got = Outcome("raise", exc=e)
     mism = []
     info = {"inputs": {k: str(v) for k, v in nm.used.items()}}
+    snap_after = snapshot_inputs(rargs, rkwargs, pb, skip_out=getattr(contract, "sanctioned_out", False))
+    for k in snap_before:
+        if snap_before[k] != snap_after.get(k):
+            mism.append(Mismatch(f"frame.input-mutated[{k}]", "changed by the call", "bit-identical to the copy taken before"))
     if want.kind == "raise" and want.exc.kind == "ANY":
         return {"status": "skip", "why": "input the statement leaves unconstrained", **info}
     if want.kind == "raise":
